@@ -44,7 +44,7 @@ TIERS = {
               "required_probes": ["c03.level_transition", "c03.odd_increment_probed", "c03.even_increment_seen",
                                   "c03.telescoping_checked", "c03.adaptive_run", "c03.sde_run", "c03.nd_run",
                                   "c03.nd_telescoping_checked", "c03.nd_odd_increment_probed", "c03.nd_odd_coordinate_seen"]},
-    "thorough": {"worlds": 60000, "wall": 3300, "shrink_budget": 100,
+    "thorough": {"worlds": 60000, "wall": 2900, "shrink_budget": 100,
                  "required_probes": ["c03.level_transition", "c03.odd_increment_probed", "c03.even_increment_seen",
                                      "c03.telescoping_checked", "c03.adaptive_run", "c03.sde_run", "c03.level_3"]},
 }
@@ -195,6 +195,7 @@ def execute(wd, sc):
     levels = {}  # level -> snapshot of the grid (axis, origin) the level's object works on
     frozen = []  # (level, path manager list, index, coarse deterministic path, fine deterministic path) at creation
     chain_drift = {}  # level -> (drift of the level-(l-1) chain, drift of the level-l chain)
+    level_sigma = {}  # level -> (diffusion coefficient of the level-(l-1) chain, of the level-l chain)
 
     script_u = {"u": None}
 
@@ -241,6 +242,8 @@ def execute(wd, sc):
             if not np.allclose(pair[0], fine_now, rtol=1e-12, atol=1e-12 * sc_):
                 add("C03.c|fine deterministic path of the pair is not the one of the fine chain|" + cls, {"level": lvl})
             frozen.append((lvl, path_managers, len(path_managers) - 1, before["det_fine"].copy(), fine_now.copy()))
+        # diffusion coefficients of the pair as the level is created: (previous level's fine one, this level's fine one)
+        level_sigma[lvl] = (before["sigma_fine"], float(cp.fine_process.equivalent_diffusion_coefficient))
         if before["det_fine"] is not None:
             # chain drifts per unit time: previous level (-> coarse component) and this level (-> fine component)
             chain_drift[lvl] = (float(before["det_fine"][1] - before["det_fine"][0]),
@@ -403,6 +406,31 @@ def execute(wd, sc):
                 mech = "uses-the-level-0-drift" if 0 in lvl0_drift and abs(got_c - lvl0_drift[0]) <= 1e-10 * (1 + abs(got_c)) and lvl >= 2 else "other"
                 add(f"C03.c|coarse component of the SDE pair is not driven with the drift of the previous level's chain|{mech}|sde-coupling",
                     {"level": lvl, "got": float(got_c), "expected": mu_c})
+    # ---- c (paths): the two diffusion components of every simulated pair are ONE Brownian path scaled by the level's
+    # and by the previous level's coefficient: sigma_(l-1) * dW_fine-component == sigma_l * dW_coarse-component
+    if sc["variant"] != "sde":
+        for smp in wd.samples:
+            lvl = smp.get("level")
+            if not lvl or lvl not in level_sigma or "diff" not in smp:
+                continue
+            d = np.asarray(smp["diff"], dtype=float)
+            if d.ndim != 2 or d.shape[0] != 2 or d.shape[1] < 2:
+                continue
+            s_c, s_f = level_sigma[lvl]
+            inc_f, inc_c = np.diff(d[0]), np.diff(d[1])
+            if s_f == 0.0 and s_c == 0.0:
+                continue
+            wd.probes["c03.pair_diffusion_checked"] += 1
+            if s_f != s_c:
+                wd.probes["c03.pair_diffusion_checked_with_level_dependent_sigma"] += 1
+            scale = max(abs(s_c), abs(s_f)) * (np.max(np.abs(inc_f)) + np.max(np.abs(inc_c))) + 1e-300
+            if not np.allclose(s_c * inc_f, s_f * inc_c, rtol=1e-10, atol=1e-13 * scale):
+                same = np.allclose(inc_f, inc_c, rtol=1e-10, atol=1e-13 * scale)
+                mech = "both-components-carry-the-same-coefficient" if same and s_f != s_c else "other"
+                add(f"C03.c|diffusion components of a simulated pair are not one Brownian path scaled by the level's and the previous level's coefficients|{mech}|method={sc['process']['method']}",
+                    {"level": lvl, "sigma_previous": s_c, "sigma_level": s_f, "fine_increments": inc_f.tolist()[:4],
+                     "coarse_increments": inc_c.tolist()[:4]})
+                break
     # ---- a: every coupled jump of every path ----------------------------------------------------------------
     for (lvl, incs, coarse_cum) in wd.c03["slices"]:
         if lvl not in levels or not incs:
